@@ -23,6 +23,7 @@ from ..alg import AlgError, Context, Rat
 from ..extract import Extractor, _dotted
 from ..model import Program, walk_own
 from ..report import AnalysisError
+from ..model import canon as K
 
 GEQ = "hypnotoad/geqdsk/_geqdsk.py"
 FU = "hypnotoad/geqdsk/_fileutils.py"
@@ -103,7 +104,7 @@ def r1(prog, rep):
     rep.ob("R1", "scalar fields are read in the order they are written (None <-> 0.0 or a repeated value)", ok, r.site(), "; ".join(detail) or "writer %s ; reader %s" % (flat, fields), key="order/scalars")
     # reader consumes them sequentially
     loops = [n for n in walk_own(r.node) if isinstance(n, ast.For) and T(mod, n.iter) == "fields"]
-    ok = len(loops) == 1 and "val=next(values)" in [T(mod, s) for s in loops[0].body] and any(T(mod, s) == "iff:data[f]=val" for s in loops[0].body)
+    ok = len(loops) == 1 and K("val=next(values)") in [T(mod, s) for s in loops[0].body] and any(T(mod, s) == K("iff:data[f]=val") for s in loops[0].body)
     rep.ob("R1", "reader takes one value per field entry, storing the named ones", ok, r.site(), "", key="order/consume")
     # arrays
     wseq = []
@@ -122,32 +123,32 @@ def r1(prog, rep):
     for s in r.node.body:
         if isinstance(s, ast.Assign) and isinstance(s.targets[0], ast.Subscript) and isinstance(s.value, ast.Call) and isinstance(s.value.func, ast.Name) and s.value.func.id in ("read_1d", "read_2d"):
             rseq.append((s.value.func.id, s.targets[0].slice.value, [T(mod, a) for a in s.value.args]))
-    want_w = [("write_1d", 'data["fpol"]'), ("write_1d", 'data["pres"]'), ("write_1d", 'data["ffprime"]|workk'), ("write_1d", 'data["pprime"]|workk'), ("write_2d", 'data["psi"]'), ("write_1d", 'data["qpsi"]')]
+    want_w = [("write_1d", K('data["fpol"]')), ("write_1d", K('data["pres"]')), ("write_1d", K('data["ffprime"]') + "|workk"), ("write_1d", K('data["pprime"]') + "|workk"), ("write_2d", K('data["psi"]')), ("write_1d", K('data["qpsi"]'))]
     rep.ob("R1", "writer array sequence: fpol, pres, ffprime (or zeros), pprime (or zeros), psi (2-D), qpsi", wseq == want_w, w.site(), str(wseq), key="order/arrays-written")
     want_r = [("read_1d", "fpol", ["nx"]), ("read_1d", "pres", ["nx"]), ("read_1d", "ffprime", ["nx"]), ("read_1d", "pprime", ["nx"]), ("read_2d", "psi", ["nx", "ny"]), ("read_1d", "qpsi", ["nx"])]
     rep.ob("R1", "reader array sequence and sizes: the same six arrays, 1-D of length nx, psi nx by ny", rseq == want_r, r.site(), str(rseq), key="order/arrays-read")
-    kinds_agree = [a[0].replace("write", "read") for a in wseq] == [b[0] for b in rseq] and [re.sub(r'data\["(\w+)"\].*', r"\1", a[1]) for a in wseq] == [b[1] for b in rseq]
+    kinds_agree = [a[0].replace("write", "read") for a in wseq] == [b[0] for b in rseq] and [re.sub(r'''data\[['"](\w+)['"]\].*''', r"\1", a[1]) for a in wseq] == [b[1] for b in rseq]
     rep.ob("R1", "array kinds and names agree position by position", kinds_agree, w.site(), "", key="order/arrays-agree")
-    zeros_ok = any(isinstance(s, ast.Assign) and T(mod, s) == "workk=zeros([nx])" for s in w.node.body)
+    zeros_ok = any(isinstance(s, ast.Assign) and T(mod, s) == K("workk=zeros([nx])") for s in w.node.body)
     rep.ob("R1", "missing optional arrays are written as nx zeros (so positions are preserved)", zeros_ok, w.site(), "", key="order/optional-zeros")
     # counts and pairs
     wsrc = T(mod, w.node)
     rsrc = T(mod, r.node)
-    ok = 'fh.write("{0:5d}{1:5d}\\n".format(nbdry,nlim))' in wsrc and "nbdry=next(values)nlim=next(values)" in rsrc.replace("\n", "")
+    ok = K('fh.write("{0:5d}{1:5d}\\n".format(nbdry,nlim))') in wsrc and K("nbdry=next(values)nlim=next(values)") in rsrc.replace("\n", "")
     rep.ob("R1", "counts are written and read as nbdry then nlim", ok, w.site(), "", key="order/counts")
     pairs_w = []
     for n in sorted(walk_own(w.node), key=lambda x: getattr(x, "lineno", 0)):
         if isinstance(n, ast.For) and isinstance(n.iter, ast.Call) and _dotted(n.iter.func) == "zip":
             pairs_w.append(([T(mod, a) for a in n.iter.args], [T(mod, s) for s in n.body], T(mod, _parent_if(w.node, n).test)))
-    ok = pairs_w == [(['data["rbdry"]', 'data["zbdry"]'], ["co.write(r)", "co.write(z)"], "nbdry>0"), (['data["rlim"]', 'data["zlim"]'], ["co.write(r)", "co.write(z)"], "nlim>0")]
+    ok = pairs_w == [([K('data["rbdry"]'), K('data["zbdry"]')], [K("co.write(r)"), K("co.write(z)")], K("nbdry>0")), ([K('data["rlim"]'), K('data["zlim"]')], [K("co.write(r)"), K("co.write(z)")], K("nlim>0"))]
     rep.ob("R1", "boundary then limiter points are written as interleaved (r, z) pairs", ok, w.site(), str(pairs_w), key="order/pairs-written")
     pairs_r = []
     for n in sorted(walk_own(r.node), key=lambda x: getattr(x, "lineno", 0)):
-        if isinstance(n, ast.For) and T(mod, n.iter) in ("range(nbdry)", "range(nlim)"):
+        if isinstance(n, ast.For) and T(mod, n.iter) in (K("range(nbdry)"), K("range(nlim)")):
             pairs_r.append((T(mod, n.iter), [T(mod, s) for s in n.body], T(mod, _parent_if(r.node, n).test)))
-    ok = pairs_r == [("range(nbdry)", ['data["rbdry"][i]=next(values)', 'data["zbdry"][i]=next(values)'], "nbdry>0"), ("range(nlim)", ['data["rlim"][i]=next(values)', 'data["zlim"][i]=next(values)'], "nlim>0")]
+    ok = pairs_r == [(K("range(nbdry)"), [K('data["rbdry"][i]=next(values)'), K('data["zbdry"][i]=next(values)')], K("nbdry>0")), (K("range(nlim)"), [K('data["rlim"][i]=next(values)'), K('data["zlim"][i]=next(values)')], K("nlim>0"))]
     rep.ob("R1", "boundary then limiter points are read as interleaved (r, z) pairs", ok, r.site(), str(pairs_r), key="order/pairs-read")
-    counts_def = "nbdry=0" in wsrc and "nlim=0" in wsrc and 'if"rbdry"indata:nbdry=len(data["rbdry"])' in wsrc and 'if"rlim"indata:nlim=len(data["rlim"])' in wsrc
+    counts_def = K("nbdry=0") in wsrc and K("nlim=0") in wsrc and K('if"rbdry"indata:nbdry=len(data["rbdry"])') in wsrc and K('if"rlim"indata:nlim=len(data["rlim"])') in wsrc
     rep.ob("R1", "counts are the lengths of the arrays written (0 when absent)", counts_def, w.site(), "", key="order/counts-def")
     # header integers
     hdr = None
@@ -157,9 +158,9 @@ def r1(prog, rep):
     ok = hdr is not None and [T(mod, a) for a in hdr.args][-3:] == ["idum", "nx", "ny"]
     fmt = hdr.func.value.value if hdr is not None and isinstance(hdr.func, ast.Attribute) and isinstance(hdr.func.value, ast.Constant) else None
     idx = re.findall(r"\{(\d+):", fmt or "")
-    ok = ok and idx[-3:] == ["4", "5", "6"] and fmt.endswith("\n")
+    ok = ok and idx[-3:] == ["4", "5", "6"] and fmt.endswith(K("\n"))
     rep.ob("R1", "header ends with idum, nx, ny", ok, w.site(), repr(fmt), key="order/header-written")
-    ok = "words=header.split()" in rsrc and "idum=int(words[-3])" in rsrc and "nx=int(words[-2])" in rsrc and "ny=int(words[-1])" in rsrc
+    ok = K("words=header.split()") in rsrc and K("idum=int(words[-3])") in rsrc and K("nx=int(words[-2])") in rsrc and K("ny=int(words[-1])") in rsrc
     rep.ob("R1", "reader takes idum, nx, ny from the last three words of the header", ok, r.site(), "", key="order/header-read")
 
 
@@ -194,16 +195,16 @@ def r2(prog, rep):
         return (T(mod_, o.target), T(mod_, o.iter), T(mod_, i.target), T(mod_, i.iter), body)
 
     a, b = nest(mod, w2), nest(gm, r2f)
-    ok = a == ("y", "range(ny)", "x", "range(nx)", ["out.write(val[x,y])"])
+    ok = a == ("y", K("range(ny)"), "x", K("range(nx)"), [K("out.write(val[x,y])")])
     rep.ob("R2", "write_2d: y outer, x inner, element [x, y]", ok, w2.site(), str(a), key="nest/write")
-    ok = b == ("y", "range(m)", "x", "range(n)", ["val[x,y]=next(values)"])
+    ok = b == ("y", K("range(m)"), "x", K("range(n)"), [K("val[x,y]=next(values)")])
     rep.ob("R2", "read_2d: y outer, x inner, element [x, y]", ok, r2f.site(), str(b), key="nest/read")
-    ok = "nx,ny=val.shape" in [T(mod, s) for s in w2.node.body] and "val=zeros([n,m])" in [T(gm, s) for s in r2f.node.body]
+    ok = K("nx,ny=val.shape") in [T(mod, s) for s in w2.node.body] and K("val=zeros([n,m])") in [T(gm, s) for s in r2f.node.body]
     rep.ob("R2", "extents: writer (nx, ny) = val.shape; reader allocates (n, m) and is called with (nx, ny)", ok, w2.site(), "", key="nest/extents")
     w1 = mod.funcs.get("write_1d")
-    ok = [T(mod, s) for s in w1.node.body if not isinstance(s, ast.Expr) or not isinstance(s.value, ast.Constant)] == ["foriinrange(len(val)):out.write(val[i])", "out.newline()"]
+    ok = [T(mod, s) for s in w1.node.body if not isinstance(s, ast.Expr) or not isinstance(s.value, ast.Constant)] == [K("foriinrange(len(val)):out.write(val[i])"), K("out.newline()")]
     rep.ob("R2", "write_1d writes the elements in index order and ends the line", ok, w1.site(), "", key="nest/write_1d")
-    ok = "out.newline()" in [T(mod, s) for s in w2.node.body]
+    ok = K("out.newline()") in [T(mod, s) for s in w2.node.body]
     rep.ob("R2", "write_2d ends the line after the array", ok, w2.site(), "", key="nest/write_2d-newline")
 
 
@@ -220,22 +221,22 @@ def source_formats(prog):
     for n in ast.walk(f2s.node):
         if isinstance(n, ast.BinOp) and isinstance(n.op, ast.Mod) and isinstance(n.left, ast.Constant) and isinstance(n.left.value, str):
             ffmt = n.left.value
-    space_rule = any(isinstance(n, ast.If) and T(mod, n.test) == "f>=0.0" and not n.orelse and isinstance(n.body[0], ast.AugAssign) and isinstance(n.body[0].op, ast.Add)
-                     and isinstance(n.body[0].value, ast.Constant) and n.body[0].value.value == " " for n in ast.walk(f2s.node))
+    space_rule = any(isinstance(n, ast.If) and T(mod, n.test) == K("f>=0.0") and not n.orelse and isinstance(n.body[0], ast.AugAssign) and isinstance(n.body[0].op, ast.Add)
+                     and isinstance(n.body[0].value, ast.Constant) and n.body[0].value.value == K(" ") for n in ast.walk(f2s.node))
     # int prefix
     iprefix = None
     for n in ast.walk(co.node):
-        if isinstance(n, ast.If) and T(mod, n.test) == "isinstance(value,int)":
+        if isinstance(n, ast.If) and T(mod, n.test) == K("isinstance(value,int)"):
             c = n.body[0].value
             a = c.args[0]
-            if isinstance(a, ast.BinOp) and isinstance(a.left, ast.Constant) and T(mod, a.right) == "str(value)":
+            if isinstance(a, ast.BinOp) and isinstance(a.left, ast.Constant) and T(mod, a.right) == K("str(value)"):
                 iprefix = a.left.value
             els = T(mod, n.orelse[0]) if n.orelse else None
     pattern = None
     for n in ast.walk(nv.node):
         if isinstance(n, ast.Call) and _dotted(n.func) == "re.compile" and isinstance(n.args[0], ast.Constant):
             pattern = n.args[0].value
-    discr = any(isinstance(n, ast.If) and T(mod, n.test) == '"."inmatch' and T(mod, n.body[0]) == "yieldfloat(match)" and T(mod, n.orelse[0]) == "yieldint(match)" for n in ast.walk(nv.node))
+    discr = any(isinstance(n, ast.If) and T(mod, n.test) == K('"."inmatch') and T(mod, n.body[0]) == K("yieldfloat(match)") and T(mod, n.orelse[0]) == K("yieldint(match)") for n in ast.walk(nv.node))
     findall = any(isinstance(n, ast.Call) and T(mod, n.func) == "pattern.findall" for n in ast.walk(nv.node))
     chunk = None
     init = mod.funcs.get("ChunkOutput.__init__")
@@ -278,7 +279,7 @@ def r3(prog, rep, thorough=False):
     mod = sf["mod"]
     rep.ob("R3", "float tokens are `%1.9E`-style with a leading space exactly for non-negative values", sf["ffmt"] is not None and re.fullmatch(r"%\d*\.\d+E", sf["ffmt"]) is not None and sf["space_rule"], sf["f2s"].site(),
            "format %r" % sf["ffmt"], key="tokens/float-format")
-    rep.ob("R3", "integers written through ChunkOutput get a separating prefix of spaces", sf["iprefix"] is not None and set(sf["iprefix"]) == {" "} and len(sf["iprefix"]) >= 1, sf["co"].site(), repr(sf["iprefix"]), key="tokens/int-format")
+    rep.ob("R3", "integers written through ChunkOutput get a separating prefix of spaces", sf["iprefix"] is not None and set(sf["iprefix"]) == {K(" ")} and len(sf["iprefix"]) >= 1, sf["co"].site(), repr(sf["iprefix"]), key="tokens/int-format")
     rep.ob("R3", "reader tokenises each line with findall of one pattern and discriminates int/float by the decimal point", sf["discr"] and sf["findall"] and sf["pattern"] is not None, sf["nv"].site(), repr(sf["pattern"]), key="tokens/reader-shape")
     if not (sf["ffmt"] and sf["iprefix"] is not None and sf["pattern"]):
         return
@@ -319,7 +320,7 @@ def r3(prog, rep, thorough=False):
     # (c) chunking: newline only after a complete token
     co = sf["co"]
     body = [T(mod, s) for s in co.node.body]
-    ok = body[-2:] == ["self.counter+=1", 'ifself.counter==self.chunk:self.fh.write("\\n")self.counter=0'] and sf["chunk"] == 5
+    ok = body[-2:] == [K("self.counter+=1"), K('ifself.counter==self.chunk:self.fh.write("\\n")self.counter=0')] and sf["chunk"] == 5
     rep.ob("R3", "a newline is written only after a complete token, every 5 values", ok, co.site(), "", key="tokens/chunking")
     # reader iterates lines: tokens never span lines (previous rule) and empty lines yield nothing
     nv = sf["nv"]
@@ -333,9 +334,9 @@ def r3(prog, rep, thorough=False):
     for n in ast.walk(w.node):
         if isinstance(n, ast.Call) and isinstance(n.func, ast.Attribute) and n.func.attr == "format" and isinstance(n.func.value, ast.Constant):
             s = n.func.value.value
-            if "{6:" in s:
+            if K("{6:") in s:
                 hdr_fmt = s
-            elif s.count("{") == 2 and "d}" in s and "\n" in s:
+            elif s.count(K("{")) == 2 and K("d}") in s and K("\n") in s:
                 cnt_fmt = s
     if hdr_fmt is None or cnt_fmt is None:
         raise AnalysisError("header / counts format strings not found")
@@ -375,7 +376,7 @@ def r4(prog, rep):
         raise AnalysisError("read_geqdsk not found")
     ctx = Context()
     ex = LinEx(ctx, mod)
-    D = lambda k: ctx.sym('data["%s"]' % k)
+    D = lambda k: ctx.sym(K('data["%s"]' % k))
     calls = {}
     for s in walk_own(f.node):
         if isinstance(s, ast.Assign) and isinstance(s.targets[0], ast.Name) and isinstance(s.value, ast.Call) and _dotted(s.value.func) in ("np.linspace", "numpy.linspace"):
@@ -404,10 +405,10 @@ def r4(prog, rep):
         rep.ob("R4", "%s is the uniform grid the format defines" % nm, ok, f.site(c) if c is not None else f.site(), detail, key="axes/" + nm)
     src = T(mod, f.node)
     facts = {
-        "psi2D is the file's psi array": 'psi2D=data["psi"]' in src,
-        "the wall is the limiter contour zip(rlim, zlim), None when absent": 'if"rlim"indataand"zlim"indata:wall=list(zip(data["rlim"],data["zlim"]))else:wall=None' in src,
-        "pressure and fpol profiles come from pres and fpol": 'pressure=data["pres"]' in src and 'fpol=data["fpol"]' in src,
-        "the gfile axis/boundary psi are simagx and sibdry": 'psi_bdry_gfile=data["sibdry"]' in src and 'psi_axis_gfile=data["simagx"]' in src,
+        "psi2D is the file's psi array": K('psi2D=data["psi"]') in src,
+        "the wall is the limiter contour zip(rlim, zlim), None when absent": K('if"rlim"indataand"zlim"indata:wall=list(zip(data["rlim"],data["zlim"]))else:wall=None') in src,
+        "pressure and fpol profiles come from pres and fpol": K('pressure=data["pres"]') in src and K('fpol=data["fpol"]') in src,
+        "the gfile axis/boundary psi are simagx and sibdry": K('psi_bdry_gfile=data["sibdry"]') in src and K('psi_axis_gfile=data["simagx"]') in src,
     }
     for k, ok in facts.items():
         rep.ob("R4", k, ok, f.site(), "", key="mapping/" + k)
@@ -426,5 +427,5 @@ def r4(prog, rep):
     eqm = prog.module("hypnotoad/core/equilibrium.py")
     b = eqm.funcs.get("Equilibrium.magneticFunctionsFromGrid")
     src = T(eqm, b.node)
-    ok = "self.psi_func=interpolate.RectBivariateSpline(R,Z,psiRZ)" in src and "self._dct=DCT_2D(R,Z,psiRZ)" in src
+    ok = K("self.psi_func=interpolate.RectBivariateSpline(R,Z,psiRZ)") in src and K("self._dct=DCT_2D(R,Z,psiRZ)") in src
     rep.ob("R4", "both interpolants are built from (R, Z, psiRZ) in that order", ok, b.site(), "", key="mapping/interpolant-build")
